@@ -276,7 +276,10 @@ class Tracer:
         cattrs = []
         for c in consts:
             cattrs.append(clist([f"({cstr(name)}, AStr {cstr(_digest_attr(c.attributes[name]))})" for name in sorted(c.attributes)]))
-        used = clist([(n.domain if n.domain != "ai.onnx" else "") for n in ordered], cstr)
+        import inspect
+        import onnxscript.rewriter._rewrite_rule as rr
+        body_domains = "for node in nodes}" in inspect.getsource(rr.RewriteRuleSet._apply_to_graph_or_function)
+        used = clist([(n.domain if n.domain != "ai.onnx" else "") for n in (body if body_domains else ordered)], cstr)
         req = (f"(Some (FnReq {cstr(call_node.domain)} {cstr(call_node.op_type)} {used} "
                f"{clist([self.token(v) for v in f.inputs], cstr)} {clist([self.node_lit(n) for n in body])} "
                f"{clist([self.token(v) for v in f.outputs], cstr)}))")
